@@ -927,7 +927,7 @@ func (x *X) bitAnd(a, b *Term, bits uint, signed bool) *Term {
 		x.typed[r.id] = true
 		x.assumeGlobal(B.And(B.Le(B.Int(0), r), B.Le(r, ua), B.Le(r, ub)), "bitand bounds")
 		// disjoint bit ranges: one operand below 2^k, the other a multiple of 2^k
-		for _, k := range []uint{9, 12, 16} {
+		for _, k := range []uint{8, 9, 12, 16, 24} {
 			p := B.BigInt(pow2(k))
 			x.assumeGlobal(B.Implies(B.Or(B.And(B.Lt(ua, p), B.Eq(B.Mod(ub, p), B.Int(0))), B.And(B.Lt(ub, p), B.Eq(B.Mod(ua, p), B.Int(0)))), B.Eq(r, B.Int(0))), "bitand of disjoint bit ranges")
 		}
